@@ -88,16 +88,24 @@ Lemma find_put_key l e e0 k : g_key e = k -> find_ent l k = Some e0 -> find_ent 
 Proof. intros Hk. subst k. apply find_put_same. Qed.
 
 (* what the state-level request does to everything that is not its own entry *)
+Lemma state_request_legacy_other w st e k :
+  g_key e <> k ->
+  find_ent (g_ents (g_state_request_legacy w st e)) k = find_ent (g_ents st) k
+  /\ kmem k (g_req (g_state_request_legacy w st e)) = kmem k (g_req st)
+  /\ (kmem k (g_exc (g_state_request_legacy w st e)) = kmem k (g_exc st)).
+Proof.
+  intros Hne. unfold g_state_request_legacy; simpl. repeat split.
+  - apply find_put_other. destruct (match g_path (g_loc e) with Some p => _ | None => false end); simpl; exact Hne.
+  - rewrite kmem_kadd. destruct (N.eqb k (g_key e)) eqn:E; [apply N.eqb_eq in E; congruence|reflexivity].
+  - rewrite kmem_kdel. destruct (N.eqb (g_key e) k) eqn:E; [apply N.eqb_eq in E; congruence|reflexivity].
+Qed.
 Lemma state_request_other w st e k :
   g_key e <> k ->
   find_ent (g_ents (g_state_request w st e)) k = find_ent (g_ents st) k
   /\ kmem k (g_req (g_state_request w st e)) = kmem k (g_req st)
   /\ (kmem k (g_exc (g_state_request w st e)) = kmem k (g_exc st)).
 Proof.
-  intros Hne. unfold g_state_request; simpl. repeat split.
-  - apply find_put_other. destruct (match g_path (g_loc e) with Some p => _ | None => false end); simpl; exact Hne.
-  - rewrite kmem_kadd. destruct (N.eqb k (g_key e)) eqn:E; [apply N.eqb_eq in E; congruence|reflexivity].
-  - rewrite kmem_kdel. destruct (N.eqb (g_key e) k) eqn:E; [apply N.eqb_eq in E; congruence|reflexivity].
+  intros Hne. unfold g_state_request. destruct (g_dir e); [repeat split|apply state_request_legacy_other; exact Hne].
 Qed.
 
 Section GateThms.
@@ -434,9 +442,9 @@ Proof.
   apply parent_conflicts_from_spec in H. destruct H as [[]|H]. right. exact H.
 Qed.
 
-Theorem request_registers w st e st' plan :
+Lemma request_core_registers w st e st' plan :
   find_ent (g_ents st) (g_key e) = Some e ->
-  g_request w st e = (st', plan) ->
+  g_request_core g_state_request_legacy w st e = (st', plan) ->
   (* the request is registered whether or not the call returns *)
   kmem (g_key e) (g_req st') = true /\ kmem (g_key e) (g_exc st') = false /\
   (* it raises exactly when the remote path of the entry is unknown; then the remote side is NOT marked changed here *)
@@ -448,13 +456,13 @@ Theorem request_registers w st e st' plan :
                 (forall p, g_path (g_loc e) = Some p -> pmem p (w_lpaths w) = false ->
                            g_oid (g_loc e') = None /\ g_sync_hash (g_rem e') = None /\ g_sync_path (g_rem e') = None)).
 Proof.
-  intros Hf. unfold g_request.
-  set (st1 := g_state_request w st e).
+  intros Hf. unfold g_request_core.
+  set (st1 := g_state_request_legacy w st e).
   assert (H1: exists e1, find_ent (g_ents st1) (g_key e) = Some e1 /\ g_key e1 = g_key e /\
                          g_oid (g_rem e1) = g_oid (g_rem e) /\ g_path (g_rem e1) = g_path (g_rem e) /\
                          (forall p, g_path (g_loc e) = Some p -> pmem p (w_lpaths w) = false ->
                                     g_loc e1 = cleared /\ g_sync_hash (g_rem e1) = None /\ g_sync_path (g_rem e1) = None)).
-  { unfold st1, g_state_request. cbn [g_ents].
+  { unfold st1, g_state_request_legacy. cbn [g_ents].
     destruct (g_path (g_loc e)) as [lp|] eqn:Hlp.
     - destruct (pmem lp (w_lpaths w)) eqn:Hm; cbn [negb].
       + exists e. split; [eapply find_put_same; exact Hf|]. split; [reflexivity|]. split; [reflexivity|]. split; [reflexivity|].
@@ -467,8 +475,8 @@ Proof.
     - exists e. split; [eapply find_put_same; exact Hf|]. split; [reflexivity|]. split; [reflexivity|]. split; [reflexivity|].
       intros p0 Hp. discriminate. }
   destruct H1 as [e1 [Hf1 [Hk1 [Ho1 [Hp1 Hst]]]]]. rewrite Hf1.
-  assert (HQ: kmem (g_key e) (g_req st1) = true) by (unfold st1, g_state_request; cbn [g_req]; rewrite kmem_kadd, N.eqb_refl; reflexivity).
-  assert (HX: kmem (g_key e) (g_exc st1) = false) by (unfold st1, g_state_request; cbn [g_exc]; rewrite kmem_kdel, N.eqb_refl; reflexivity).
+  assert (HQ: kmem (g_key e) (g_req st1) = true) by (unfold st1, g_state_request_legacy; cbn [g_req]; rewrite kmem_kadd, N.eqb_refl; reflexivity).
+  assert (HX: kmem (g_key e) (g_exc st1) = false) by (unfold st1, g_state_request_legacy; cbn [g_exc]; rewrite kmem_kdel, N.eqb_refl; reflexivity).
   destruct (g_path (g_rem e1)) as [rp|] eqn:Hrp; intros H; inversion H; subst; clear H; cbn [g_req g_exc g_ents].
   - split; [exact HQ|]. split; [exact HX|]. split; [split; [discriminate|congruence]|].
     intros pl Hpl. inversion Hpl; subst; clear Hpl.
@@ -480,6 +488,91 @@ Proof.
       destruct (zero_orphan_keeps (has_oid (g_rem e1)) (pending (g_loc e1)) (g_loc e1)) as [Z1 _].
       rewrite Z1, Hc. repeat split; assumption.
   - split; [exact HQ|]. split; [exact HX|]. split; [split; [congruence|reflexivity]|]. intros pl Hpl. discriminate.
+Qed.
+
+(* ---- the repaired request (fc0a567: a request by id fills an unknown remote path in first; 2277c0d: folders register nothing) *)
+Lemma fill_remote_spec bo w st e st0 e0 :
+  find_ent (g_ents st) (g_key e) = Some e ->
+  fill_remote bo w st e = (st0, e0) ->
+  find_ent (g_ents st0) (g_key e) = Some e0 /\ g_key e0 = g_key e /\ g_req st0 = g_req st /\ g_exc st0 = g_exc st /\
+  g_loc e0 = g_loc e /\ g_oid (g_rem e0) = g_oid (g_rem e) /\
+  (needs_fill bo e = false -> e0 = e /\ st0 = st) /\
+  (needs_fill bo e = true -> forall o i, g_oid (g_rem e) = Some o -> find_robj w o = Some i ->
+                             g_path (g_rem e0) = Some (r_path i) /\ g_dir e0 = r_isdir i).
+Proof.
+  intros Hf. unfold fill_remote. destruct (needs_fill bo e) eqn:Hn; intros H; inversion H; subst; clear H.
+  - assert (K: g_key (g_refresh_remote w e) = g_key e /\ g_loc (g_refresh_remote w e) = g_loc e /\
+               g_oid (g_rem (g_refresh_remote w e)) = g_oid (g_rem e)).
+    { unfold g_refresh_remote. destruct (g_oid (g_rem e)) as [o|] eqn:Ho; [destruct (find_robj w o)|]; simpl; repeat split;
+        try reflexivity; try (symmetry; exact Ho). }
+    destruct K as [K1 [K2 K3]]. cbn [g_ents g_req g_exc].
+    split; [eapply find_put_key; [exact K1|exact Hf]|].
+    split; [exact K1|]. split; [reflexivity|]. split; [reflexivity|]. split; [exact K2|]. split; [exact K3|].
+    split; [discriminate|]. intros _ o i Ho Hi. unfold g_refresh_remote. rewrite Ho, Hi. simpl. split; reflexivity.
+  - repeat split; try assumption; try reflexivity; discriminate.
+Qed.
+
+Lemma request_core_same w st e : g_dir e = false ->
+  g_request_core g_state_request w st e = g_request_core g_state_request_legacy w st e.
+Proof. intros Hd. unfold g_request_core, g_state_request. rewrite Hd. reflexivity. Qed.
+
+(* files (after the fill): the request is registered, un-excluded, marked; it raises exactly when the path is still unknown *)
+Theorem request_registers bo w st e st0 e0 st' plan :
+  find_ent (g_ents st) (g_key e) = Some e ->
+  fill_remote bo w st e = (st0, e0) -> g_dir e0 = false ->
+  g_request bo w st e = (st', plan) ->
+  kmem (g_key e) (g_req st') = true /\ kmem (g_key e) (g_exc st') = false /\
+  (plan = None <-> g_path (g_rem e0) = None) /\
+  (forall pl, plan = Some pl ->
+     (exists pre, pl = pre ++ [g_key e]) /\
+     exists e', find_ent (g_ents st') (g_key e) = Some e' /\ g_changed (g_rem e') = true /\ g_latest e' = false /\
+                g_oid (g_rem e') = g_oid (g_rem e) /\
+                (forall p, g_path (g_loc e) = Some p -> pmem p (w_lpaths w) = false ->
+                           g_oid (g_loc e') = None /\ g_sync_hash (g_rem e') = None /\ g_sync_path (g_rem e') = None)).
+Proof.
+  intros Hf Hfill Hd. unfold g_request. rewrite Hfill.
+  destruct (fill_remote_spec bo w st e st0 e0 Hf Hfill) as [Hf0 [Hk [_ [_ [Hl [Ho _]]]]]].
+  rewrite (request_core_same w st0 e0 Hd). intros H.
+  rewrite <- Hk in Hf0.
+  destruct (request_core_registers w st0 e0 st' plan Hf0 H) as [A [B [C D]]].
+  rewrite Hk in A, B, D. rewrite Hl, Ho in D.
+  split; [exact A|]. split; [exact B|]. split; [exact C|exact D].
+Qed.
+
+(* folders: nothing is registered, so there is nothing an un-request could take away (2277c0d) *)
+Theorem request_of_folder_registers_nothing bo w st e st0 e0 st' plan :
+  fill_remote bo w st e = (st0, e0) -> g_dir e0 = true ->
+  g_request bo w st e = (st', plan) ->
+  g_req st' = g_req st0 /\ g_exc st' = g_exc st0.
+Proof.
+  intros Hfill Hd. unfold g_request. rewrite Hfill. unfold g_request_core, g_state_request. rewrite Hd.
+  destruct (find_ent (g_ents st0) (g_key e0)) as [e1|]; [destruct (g_path (g_rem e1))|]; intros H; inversion H; subst;
+    split; reflexivity.
+Qed.
+
+(* a request by id of an object the remote provider has never raises for lack of a path (fc0a567) *)
+Theorem request_by_id_never_raises w st e o i st' plan :
+  find_ent (g_ents st) (g_key e) = Some e ->
+  g_oid (g_rem e) = Some o -> find_robj w o = Some i ->
+  g_request true w st e = (st', plan) -> plan <> None.
+Proof.
+  intros Hf Ho Hi. unfold g_request.
+  destruct (fill_remote true w st e) as [st0 e0] eqn:Hfill.
+  destruct (fill_remote_spec true w st e st0 e0 Hf Hfill) as [Hf0 [Hk [_ [_ [_ [_ [Hnf Hfl]]]]]]].
+  assert (Hp: g_path (g_rem e0) <> None).
+  { destruct (needs_fill true e) eqn:Hn.
+    - destruct (Hfl eq_refl o i Ho Hi) as [Hp _]. rewrite Hp. discriminate.
+    - destruct (Hnf eq_refl) as [-> _]. unfold needs_fill in Hn. simpl in Hn.
+      destruct (g_path (g_rem e)); [discriminate|discriminate]. }
+  unfold g_request_core.
+  assert (Hsr: exists e1, find_ent (g_ents (g_state_request w st0 e0)) (g_key e0) = Some e1 /\ g_path (g_rem e1) = g_path (g_rem e0)).
+  { rewrite <- Hk in Hf0. unfold g_state_request. destruct (g_dir e0); [exists e0; split; [exact Hf0|reflexivity]|].
+    unfold g_state_request_legacy. cbn [g_ents].
+    destruct (match g_path (g_loc e0) with Some p => negb (pmem p (w_lpaths w)) | None => false end).
+    - eexists. split; [eapply find_put_key; [|exact Hf0]; reflexivity|reflexivity].
+    - exists e0. split; [eapply find_put_same; exact Hf0|reflexivity]. }
+  destruct Hsr as [e1 [Hf1 Hp1]]. rewrite Hf1. rewrite Hp1.
+  destruct (g_path (g_rem e0)); [|exfalso; apply Hp; reflexivity]. intros H; inversion H; subst. discriminate.
 Qed.
 
 (* ---- G4: the merged listing, one folder *)
@@ -541,3 +634,63 @@ Proof.
   destruct (find_local ls (i_name it)) as [l|]; [exists l; reflexivity|].
   destruct H as [e [_ [_ [_ [_ Hit]]]]]. rewrite Hit in Hs. discriminate.
 Qed.
+
+(* ================================================================== the code before the repairs fc0a567 / 2277c0d: refuted *)
+Local Open Scope N_scope.
+Definition wit_rem (p : option path) : gside :=
+  {| g_oid := Some 10; g_path := p; g_changed := true; g_exists := XExists; g_hash := Some 1;
+     g_sync_hash := None; g_sync_path := None; g_size := 3; g_mtime := 5 |}.
+(* S-1: a remote file the engine knows by id only (the event carried no path) *)
+Definition wit_file : gent :=
+  {| g_key := 1; g_loc := cleared; g_rem := wit_rem None; g_dir := false; g_lfresh := true; g_rfresh := false;
+     g_discarded := false; g_conflicted := false |}.
+Definition wit_w : gworld :=
+  {| w_lpaths := [[1]; [1; 7]]; w_loids := [20]; w_lhash := [];
+     w_robjs := [{| r_oid := 10; r_path := [2; 7]; r_hash := Some 1; r_isdir := false; r_size := 3; r_mtime := 5 |}] |}.
+Definition wit_st (e : gent) : gst := {| g_ents := [e]; g_changeset := [1]; g_req := []; g_exc := [] |}.
+
+Definition legacy_by_id_never_raises_full : Prop :=
+  forall w st e o i st' plan,
+    find_ent (g_ents st) (g_key e) = Some e -> g_oid (g_rem e) = Some o -> find_robj w o = Some i ->
+    g_request_legacy w st e = (st', plan) -> plan <> None.
+Theorem legacy_by_id_never_raises_refuted : ~ legacy_by_id_never_raises_full.
+Proof.
+  intros H. apply (H wit_w (wit_st wit_file) wit_file 10
+                     {| r_oid := 10; r_path := [2; 7]; r_hash := Some 1; r_isdir := false; r_size := 3; r_mtime := 5 |}
+                     (fst (g_request_legacy wit_w (wit_st wit_file) wit_file)) None); reflexivity.
+Qed.
+(* ... and the request it raised on is in force all the same; the repaired request of the same table returns *)
+Theorem legacy_by_id_registers_then_raises :
+  snd (g_request_legacy wit_w (wit_st wit_file) wit_file) = None /\
+  kmem 1 (g_req (fst (g_request_legacy wit_w (wit_st wit_file) wit_file))) = true /\
+  snd (g_request true wit_w (wit_st wit_file) wit_file) = Some [1].
+Proof. vm_compute. repeat split; reflexivity. Qed.
+
+(* S-2: a mirrored folder *)
+Definition wit_dir : gent :=
+  {| g_key := 1;
+     g_loc := {| g_oid := Some 20; g_path := Some [1; 7]; g_changed := false; g_exists := XExists; g_hash := None;
+                 g_sync_hash := None; g_sync_path := Some [1; 7]; g_size := 0; g_mtime := 0 |};
+     g_rem := {| g_oid := Some 10; g_path := Some [2; 7]; g_changed := false; g_exists := XExists; g_hash := None;
+                 g_sync_hash := None; g_sync_path := Some [2; 7]; g_size := 0; g_mtime := 5 |};
+     g_dir := true; g_lfresh := true; g_rfresh := true; g_discarded := false; g_conflicted := false |}.
+Definition legacy_folder_registers_nothing_full : Prop :=
+  forall w st e st' plan, g_dir e = true -> g_request_legacy w st e = (st', plan) -> g_req st' = g_req st.
+Theorem legacy_folder_registers_nothing_refuted : ~ legacy_folder_registers_nothing_full.
+Proof.
+  intros H.
+  specialize (H wit_w (wit_st wit_dir) wit_dir (fst (g_request_legacy wit_w (wit_st wit_dir) wit_dir))
+                (snd (g_request_legacy wit_w (wit_st wit_dir) wit_dir)) eq_refl eq_refl).
+  vm_compute in H. discriminate.
+Qed.
+(* the consequence: the un-request that the legacy registration makes possible deletes the local FOLDER and excludes the
+   entry (it is then never offered again); after the repaired request the same un-request does nothing *)
+Theorem legacy_folder_unrequest_deletes_local_folder :
+  let st1 := fst (g_request_legacy wit_w (wit_st wit_dir) wit_dir) in
+  let st2 := fst (g_request false wit_w (wit_st wit_dir) wit_dir) in
+  (exists e1, find_ent (g_ents st1) 1 = Some e1 /\
+              snd (g_unrequest wit_w true st1 e1) = [GDeleteLocal [1; 7]] /\
+              kmem 1 (g_exc (fst (g_unrequest wit_w true st1 e1))) = true) /\
+  (exists e2, find_ent (g_ents st2) 1 = Some e2 /\ snd (g_unrequest wit_w true st2 e2) = [] /\
+              g_exc (fst (g_unrequest wit_w true st2 e2)) = []).
+Proof. vm_compute. split; eexists; repeat split; reflexivity. Qed.
